@@ -373,7 +373,9 @@ class Builder:
         bdir = os.path.join(self.dir, 'boost', 'serialization')
         os.makedirs(bdir, exist_ok=True)
         with open(os.path.join(bdir, 'export.hpp'), 'w') as f:
-            f.write('#pragma once\n#ifndef BOOST_CLASS_EXPORT\n#define BOOST_CLASS_EXPORT(x)\n#endif\n')
+            f.write('#pragma once\n#ifndef BOOST_CLASS_EXPORT\n'
+                    '// stand-in: the argument must be one identifier-like token sequence naming a complete type\n'
+                    '#define BOOST_CLASS_EXPORT(x) static_assert(sizeof(x) > 0, "BOOST_CLASS_EXPORT needs a complete type");\n#endif\n')
 
     def unit_dir(self, name):
         d = os.path.join(self.dir, name)
